@@ -293,6 +293,10 @@ def run(ctx):
             cf = prog.funcs.get(c)
             if cf and any(True for _ in call_sites(cf, lambda p, cc: p == "sender::filedesc::FileDesc::to_file_xml")):
                 okx = True
+        # the same as an explicit loop pushing desc.to_file_xml(now) for every element of the selected list
+        if not okx and any(z.endswith("FileDesc::to_file_xml") for z in fsrc if z.startswith("call:")) and \
+                foreach_sites(prog, gi, r".", lambda p: p == "sender::filedesc::FileDesc::to_file_xml"):
+            okx = True
         if okx:
             r5.ok("get_fdt_instance entries = to_file_xml", "", loc(s.sp))
         else:
